@@ -17,9 +17,10 @@ import (
 // ---------------------------------------------------------------------------
 
 type wireClient struct {
-	tc  *testClient
-	pos int // bytes of the transcript already consumed
-	n   int
+	tc    *testClient
+	pos   int // bytes of the transcript already consumed
+	n     int
+	calls int
 }
 
 var wc *wireClient
@@ -28,7 +29,9 @@ func getWireClient(prop string) (*wireClient, *Violation) {
 	if wc != nil && wc.tc.C.Connected() {
 		return wc, nil
 	}
-	w := &wireClient{tc: newTestClient(cliOpts{Flood: true})}
+	w := &wireClient{tc: newTestClient(cliOpts{Flood: true, Configure: func(cfg *client.Config) {
+		cfg.Timeout = 20 * time.Millisecond // dial timeout; the stall cases below last longer than this
+	}})}
 	if err := w.tc.connect(); err != nil {
 		return nil, violationf(prop, "connect: %v", err)
 	}
@@ -46,6 +49,17 @@ func (w *wireClient) capture(prop string, f func(c *client.Conn)) (string, *Viol
 	end := fmt.Sprintf("%s%dE", markPfx, w.n)
 	c := w.tc.conn()
 	w.tc.C.Raw(begin)
+	w.calls++
+	if w.calls%997 == 0 {
+		// now and then the server stops reading for longer than Config.Timeout in the middle of a call:
+		// whatever the client does about it, only whole lines of the right verb may reach the wire
+		c.PartialWrites(true)
+		c.Gate(true)
+		go func() {
+			time.Sleep(45 * time.Millisecond)
+			c.Gate(false)
+		}()
+	}
 	done := make(chan interface{}, 1)
 	go func() {
 		defer func() { done <- recover() }()
